@@ -474,3 +474,13 @@ func (c *Ctx) Run(steps []string) []string {
 	}
 	return out
 }
+
+// swapRecordJSON returns the stored record of a swap as canonical JSON ("" if absent).
+func (w *World) swapRecordJSON(id string) string {
+	s, err := w.svc.GetSwap(id)
+	if err != nil || s == nil {
+		return ""
+	}
+	b, _ := json.Marshal(s)
+	return string(b)
+}
